@@ -9,6 +9,15 @@ def main():
     bad = exactq.selftest(4000)
     print('exactq twin-rounding selftest mismatches:', bad)
     os.makedirs(os.path.join(refmodel.ROOT, 'evidence'), exist_ok=True)
+    # every public callable of mp is catalogued or explicitly excluded (new functions must not escape the monitors)
+    try:
+        sys.path.insert(0, os.environ.get('VERIF_REPO', '/repo'))
+        import mpmath
+        from vf import catalog
+        missing = catalog.consistency(mpmath.mp)
+        print('catalog consistency: uncatalogued public callables:', missing)
+    except Exception as e:
+        print('catalog consistency check skipped:', repr(e))
     sys.exit(1 if bad else 0)
 
 if __name__ == '__main__':
